@@ -42,7 +42,7 @@ func verifRefComponent(s string) (uint32, bool) {
 // plus an optional H or ', value < 2^31, and its value is the decimal reading.
 //
 //verif:run quick n=1..6
-//verif:run thorough n=7..12
+//verif:run thorough n=7..8
 //verif:timeout 120
 func VerifC10Component(n int) {
 	s := verifString("comp", n)
